@@ -12,6 +12,7 @@ type profile struct {
 	SizeFill int    `json:"size_fill"` // bulk-load this many MiB with entries of 2..7 MiB (rotation on the data-area limit)
 	Install  bool   `json:"install"`   // start with a snapshot ahead of the empty log
 	BigBatch bool   `json:"big_batch"` // allow 1000..12000-entry batches after the bulk load
+	Deep     bool   `json:"deep"`      // the forced conflict goes into the oldest file (two or more files are discarded)
 }
 
 type gen struct {
@@ -31,7 +32,7 @@ type gen struct {
 
 func newGen(r *runner, rng *rand.Rand, p profile) *gen {
 	g := &gen{r: r, rng: rng, p: p, curTerm: 1 + rng.Uint64N(5)}
-	g.forceX = 2 + rng.IntN(8)
+	g.forceX = 1 + rng.IntN(max(1, min(8, p.Ops-3)))
 	return g
 }
 
@@ -120,6 +121,9 @@ func (g *gen) conflictTarget(forceRotated bool) (uint64, bool) {
 		k := len(files) - 2
 		if k > 0 && g.rng.IntN(3) == 0 {
 			k = g.rng.IntN(k + 1)
+		}
+		if g.p.Deep {
+			k = 0
 		}
 		b, nb := files[k], files[k+1]
 		if lb >= nb {
